@@ -111,7 +111,8 @@ class Comp:
             t = {"tensor_shape_map": V("σ", "Scope"), "registered_tensor_dtypes": V("registered", "Reg"), "_hinted_tensors": Obj("queue", "queue")}
         elif k == "ann":
             t = {"multiaxis_index": V(f"{b}.multiIdx", "OptNat"), "multiaxis_name": V(f"{b}.multiName", "OptName"), "expected_shape": V(f"{b}.dims", "Dims"),
-                 "_literal_dims": V(f"{b}.literalDims", "Pairs"), "DTYPES": V(f"{b}.cls", "DTYPES"), "optional": V(f"{b}.optional", "Bool")}
+                 "_literal_dims": V(f"{b}.literalDims", "Pairs"), "DTYPES": V(f"{b}.cls", "DTYPES"), "optional": V(f"{b}.optional", "Bool"),
+                 "anonymous_multiaxis": V(f"{b}.anonMulti", "Bool")}
         elif k == "tensor":
             t = {"shape": V(f"{b}.shape", "Shape"), "ndim": V(f"{b}.shape.length", "Nat"), "dtype": V(f"{b}.dt", "Dtype")}
         elif k == "entry":
@@ -194,6 +195,13 @@ class Comp:
                 v = self.opt_value(self.expr(e.values[1].value, env, hoist), env, e)
                 if v.ty == "Name":
                     return V(f"(lenKey {v.text})", "Name")
+            # f"{name}[{i}]"  (str(None) is "None")
+            if len(e.values) == 4 and isinstance(e.values[0], ast.FormattedValue) and isinstance(e.values[1], ast.Constant) and e.values[1].value == "[" \
+                    and isinstance(e.values[2], ast.FormattedValue) and isinstance(e.values[3], ast.Constant) and e.values[3].value == "]":
+                nm = self.expr(e.values[0].value, env, hoist)
+                ix = self.expr(e.values[2].value, env, hoist)
+                if isinstance(nm, V) and nm.ty == "OptName" and isinstance(ix, V) and ix.ty == "Nat":
+                    return V(f"(grpKey ({nm.text}.getD noneName) {ix.text})", "Name")
             raise TErr(f"f-string `{_src(e)}`")
         if isinstance(e, ast.UnaryOp) and isinstance(e.op, ast.Not):
             return V(f"(!{self.to_bool(self.expr(e.operand, env, hoist))})", "Bool")
@@ -585,6 +593,31 @@ def addGo (name : Name) : Nat → List (Option Ann) → List Value → Outcome (
 """
 
 
+EXPAND_HELPERS = """/-- `list.insert(i, x)`: the index is clamped to the list (a negative index counts from the end) -/
+def pyInsert {α} (l : List α) (i : Int) (x : α) : List α :=
+  let k := if i < 0 then (Int.ofNat l.length + i).toNat else min i.toNat l.length
+  l.take k ++ x :: l.drop k
+
+/-- `list.pop(i)`: IndexError (`none`) when out of range -/
+def pyPop {α} (l : List α) (i : Int) : Option (List α) :=
+  if i < 0 then (if -i ≤ Int.ofNat l.length then some (l.eraseIdx (Int.ofNat l.length + i).toNat) else none)
+  else (if i.toNat < l.length then some (l.eraseIdx i.toNat) else none)
+
+"""
+
+EXPAND_SKELETON = """/-- loop skeleton (fixed text): `for i in range(n)` -/
+def expandLoop (e : Entry) (mi : Nat) : Nat → Nat → List DimExpr → Outcome (List DimExpr)
+  | 0, _, l => .ok l
+  | n + 1, i, l =>
+    match expandStep e mi i l with
+    | .ok l' => expandLoop e mi n (i + 1) l'
+    | .reject r => .reject r
+    | .pyExc x => .pyExc x
+    | .unmodelled => .unmodelled
+
+"""
+
+
 def gen_core(lib_dir: str, header: str) -> str:
     def parse(f):
         with open(os.path.join(lib_dir, f)) as fh:
@@ -669,6 +702,52 @@ def gen_core(lib_dir: str, header: str) -> str:
     env.objs["tensor"] = Obj("value", "v")
     add_step = c.block(loop.body, 0, env, lambda e, ind: ".ok appended", "  ")
 
+    # 5. get_expected_shape ---------------------------------------------------------------------------------
+    f = _find_method(ctx_mod, "_ConcreteType", "get_expected_shape")
+    if [a.arg for a in f.args.args] != ["self", "tensor"]:
+        raise TErr("get_expected_shape: parameters")
+    body = [s for s in _strip(f.body)]
+    if not (len(body) == 3 and _src(body[0]) == "expected_shape = list(self.dltype_annotation.expected_shape)" and isinstance(body[1], ast.If)
+            and _src(body[1].test) == "self.dltype_annotation.multiaxis_index is not None" and not body[1].orelse and _src(body[2]) == "return tuple(expected_shape)"):
+        raise TErr("get_expected_shape: expected `expected_shape = list(...)`, `if self.dltype_annotation.multiaxis_index is not None:`, `return tuple(expected_shape)`")
+    inner = [s for s in body[1].body if not (isinstance(s, ast.Expr) and isinstance(s.value, ast.Call) and _src(s.value.func).startswith("_logger."))]
+    if not (len(inner) == 4 and _src(inner[0]) == "actual_shape = tensor.shape" and isinstance(inner[1], ast.Assign) and isinstance(inner[1].targets[0], ast.Name)
+            and isinstance(inner[2], ast.Expr) and _src(inner[2].value.func) == "expected_shape.pop" and len(inner[2].value.args) == 1 and isinstance(inner[3], ast.For)):
+        raise TErr("get_expected_shape: the marker branch is not `actual_shape = tensor.shape; offset = ...; expected_shape.pop(i); for i in range(offset): ...`")
+    c = Comp(None)
+    env = Env()
+    env.objs["self"] = Obj("entry", "e")
+    env.objs["tensor"] = Obj("tensor", "e.tensor")
+    env.vars["actual_shape"] = V("e.tensor.shape", "Shape")
+    env.vars["expected_shape"] = V("e.ann.dims", "Dims")
+    env.some["e.ann.multiIdx"] = "mi"
+    offvar = inner[1].targets[0].id
+    h: list = []
+    off = c.expr(inner[1].value, env, h)
+    popi = c.expr(inner[2].value.args[0], env, h)
+    loop = inner[3]
+    if not (isinstance(loop.target, ast.Name) and _src(loop.iter) == f"range({offvar})" and len(loop.body) == 1 and isinstance(loop.body[0], ast.Expr)
+            and _src(loop.body[0].value.func) == "expected_shape.insert" and len(loop.body[0].value.args) == 2):
+        raise TErr("get_expected_shape: the loop is not `for i in range(offset): expected_shape.insert(index, literal)`")
+    env.vars[loop.target.id] = V("i", "Nat")
+    ins_i = c.expr(loop.body[0].value.args[0], env, h)
+    lit = loop.body[0].value.args[1]
+    if not (isinstance(lit, ast.Call) and _src(lit.func) == "_parser.DLTypeDimensionExpression.from_multiaxis_literal" and len(lit.args) == 2
+            and [k.arg for k in lit.keywords] == ["is_anonymous"]):
+        raise TErr(f"get_expected_shape: inserted element `{_src(lit)[:100]}`")
+    key = c.expr(lit.args[0], env, h)
+    if h:
+        raise TErr("get_expected_shape: partial operation outside the loop body")
+    hh: list = []
+    val = c.expr(lit.args[1], env, hh)
+    anon = c.expr(lit.keywords[0].value, env, hh)
+    if not (len(hh) == 1 and hh[0][0] == "index" and isinstance(key, V) and key.ty == "Name" and isinstance(anon, V) and anon.ty == "Bool" and val.ty == "Nat"):
+        raise TErr("get_expected_shape: arguments of from_multiaxis_literal")
+    expand_step = c.wrap(hh, f".ok (pyInsert l {c.to_int(c.opt_value(ins_i, env, lit))} (mkMultiLiteral {key.text} {val.text} {anon.text}))", "  ")
+    expand_text = (f"  match e.ann.multiIdx with\n  | none => .ok e.ann.dims\n  | some mi =>\n    let {offvar} : Int := {c.to_int(off)}\n"
+                   f"    match pyPop e.ann.dims {c.to_int(c.opt_value(popi, env, inner[2]))} with\n    | none => .pyExc .indexError\n"
+                   f"    | some expected_shape => expandLoop e mi {offvar}.toNat 0 expected_shape\n")
+
     out = header
     out += "import DltypeModel.Context\nset_option linter.unusedVariables false\nnamespace Dltype.Gen\nopen Dltype\n\n"
     out += "/-- Python indexing of a shape: a negative index counts from the end, out of range is IndexError (`none`) -/\n"
@@ -689,6 +768,11 @@ def gen_core(lib_dir: str, header: str) -> str:
     out += "/-- the body of the loop of `DLTypeContext.add`: what (if anything) is appended to the queue for position `idx` -/\n"
     out += "def addStep (name : Name) (idx : Nat) (a : Option Ann) (v : Value) : Outcome (Option Entry) :=\n  let appended : Option Entry := none\n  " + add_step + "\n\n"
     out += ADD_SKELETON
+    out += EXPAND_HELPERS
+    out += "/-- the body of the loop of `_ConcreteType.get_expected_shape`: insert the literal for position `i` of the marker -/\n"
+    out += "def expandStep (e : Entry) (mi : Nat) (i : Nat) (l : List DimExpr) : Outcome (List DimExpr) :=\n  " + expand_step + "\n\n"
+    out += EXPAND_SKELETON
+    out += "/-- `_ConcreteType.get_expected_shape(tensor)` -/\ndef expand (e : Entry) : Outcome (List DimExpr) :=\n" + expand_text + "\n"
     out += "end Dltype.Gen\n"
     return out
 
